@@ -686,10 +686,18 @@ func runC14(s *sim) {
 				}
 			}
 		}
-		// application callbacks that do not watch their context finish now
-		for round := 0; round < 4; round++ {
-			for _, g := range s.parkedGates() {
-				s.release(g, 0)
+		// application callbacks that do not watch their context finish now (until none is parked:
+		// one worker with inline validators enters them one after the other, and after the
+		// cancellation it may still take queued messages while the queue is ready too; a bound of 4
+		// rounds left a worker inside the application's validator and raised a false alarm once in
+		// 1.2e6 thorough runs)
+		for round := 0; round < 8192; round++ {
+			g := s.parkedGates()
+			if len(g) == 0 {
+				break
+			}
+			for _, x := range g {
+				s.release(x, 0)
 			}
 			s.settle()
 		}
